@@ -151,10 +151,18 @@ func (h *Hook) matchesCurrent() (bool, bool, error) {
 		return false, false, err
 	}
 
-	by, err := io.ReadAll(io.LimitReader(file, 1024))
+	// Read one byte more than any hook written by Git LFS can have, so that
+	// a longer file is recognised as such instead of being compared by its
+	// first 1024 bytes only.
+	by, err := io.ReadAll(io.LimitReader(file, 1025))
 	file.Close()
 	if err != nil {
 		return false, false, err
+	}
+
+	if len(by) > 1024 {
+		// Too long to be one of our hooks: never upgrade or remove it.
+		return false, false, errors.New(tr.Tr.Get("Hook already exists: %s", string(h.Type)))
 	}
 
 	contents := strings.TrimSpace(tools.Undent(string(by)))
